@@ -33,6 +33,7 @@ EXPLANATION = (
     "NOT decided: that no input whatsoever makes a library call raise (KeyError/IndexError/validation errors on "
     "run-time values) and finiteness of rewards as numbers."
 )
+TECHNIQUE = "static: CFG dominators/exactly-once counts on the step pipeline, return-shape analysis of request handlers over the class hierarchy, signature agreement of overrides"
 ASSUMPTIONS = ["request handlers are only the functions passed as RequestType(func=...) at the add_request sites",
                "class-hierarchy analysis over-approximates dispatch; unresolved callees are reported as unknown, not as failures"]
 
